@@ -7,4 +7,5 @@ var v5Families = map[string]func(*engine, int, []byte) error{
 	"decode": (*engine).checkDecodeLine,
 	"word":   (*engine).checkWordLine,
 	"enc":    (*engine).checkEncLine,
+	"cli":    (*engine).checkCliLine,
 }
